@@ -24,9 +24,11 @@ package pongo2
 //@   requires @owned perexec(c)
 
 //@ func NewChildExecutionContext
+//@   flag returns-fresh
 //@   ensures fresh(r0) && r0 != nil && fresh(r0.Private) && r0.Private != nil
 //@   ensures r0.Public == parent.Public && r0.Autoescape == parent.Autoescape && r0.template == parent.template && r0.Shared == parent.Shared
 //@ func newExecutionContext
+//@   flag returns-fresh
 //@   ensures fresh(r0) && r0 != nil && fresh(r0.Private) && r0.Public == ctx && r0.template == tpl
 
 // sort.Sort calls back Len/Less/Swap on the value it is given; Swap writes the slice elements.
@@ -125,3 +127,71 @@ package pongo2
 //@   at append[*nodeFilterCall] requires {C03,C19} @approved elem != nil && !has(doc.template.set.bannedFilters, elem.name) && has(filters, elem.name)
 //@ writers {C03,C19} F|tagFilterNode|filterChain tagFilterParser
 //@ writers {C03,C19} F|nodeFilterCall|name tagFilterParser
+
+// ---- compile API seen from its callers ----
+// FromFile compiles a new template: it writes the set's freeze flag and otherwise only objects it allocates.
+// (The body of this frame claim is not verified: it needs ownership of the template under construction. ASSUMED.)
+//@ func (*TemplateSet).FromFile
+//@   flag trusted-assigns
+//@   assigns set.firstTemplateCreated
+
+// loaders are deterministic functions of their arguments (ASSUMED for user loaders)
+//@ spec LoaderAbs(l TemplateLoader, base string, name string) string
+//@ iface TemplateLoader.Abs(recv, base, name) (r0)
+//@   ensures r0 == LoaderAbs(recv, base, name)
+
+// ---- template cache, sequential specification (C20) ----
+//@ func (*TemplateSet).FromCache
+//@   requires len(set.loaders) > 0
+//@   ensures {C20} @same-map-object set.templateCache == old(set.templateCache)
+//@   ensures {C20} @debug-bypasses-cache old(set.Debug) ==> (mapdom(set.templateCache) == old(mapdom(set.templateCache)) && mapvals(set.templateCache) == old(mapvals(set.templateCache)))
+//@   ensures {C20} @error-caches-nothing r1 != nil ==> (mapdom(set.templateCache) == old(mapdom(set.templateCache)) && mapvals(set.templateCache) == old(mapvals(set.templateCache)))
+//@   ensures {C20} @hit-returns-cached (!old(set.Debug) && old(has(set.templateCache, LoaderAbs(set.loaders[0], "", filename)))) ==> (r1 == nil && r0 == old(set.templateCache[LoaderAbs(set.loaders[0], "", filename)]) && mapdom(set.templateCache) == old(mapdom(set.templateCache)) && mapvals(set.templateCache) == old(mapvals(set.templateCache)))
+//@   ensures {C20} @miss-fills-exactly-key (!old(set.Debug) && r1 == nil && !old(has(set.templateCache, LoaderAbs(set.loaders[0], "", filename)))) ==> (mapdom(set.templateCache) == store(old(mapdom(set.templateCache)), old(LoaderAbs(set.loaders[0], "", filename)), true) && mapvals(set.templateCache) == store(old(mapvals(set.templateCache)), old(LoaderAbs(set.loaders[0], "", filename)), r0))
+//@ func (*TemplateSet).CleanCache
+//@   requires len(set.loaders) > 0
+//@   ensures {C20} @all-emptied len(filenames) == 0 ==> (forall k string :: !has(set.templateCache, k))
+//@   invariant 0 {C20} @only-deletes len(filenames) > 0 ==> set.templateCache == old(set.templateCache) && (forall k string :: has(set.templateCache, k) ==> (old(has(set.templateCache, k)) && set.templateCache[k] == old(set.templateCache[k])))
+//@   invariant 0 {C20} @stays-empty len(filenames) == 0 ==> (forall k string :: !has(set.templateCache, k))
+//@   ensures {C20} @named-only-deletes len(filenames) > 0 ==> (set.templateCache == old(set.templateCache) && (forall k string :: has(set.templateCache, k) ==> (old(has(set.templateCache, k)) && set.templateCache[k] == old(set.templateCache[k]))))
+
+// ---- scoping (C12) ----
+// Update copies every pair of `other` into c and touches nothing else of c
+//@ func (Context).Update
+//@   invariant 0 {C12} @copied forall k string :: seen[k] ==> (has(c, k) && c[k] == other[k])
+//@   invariant 0 {C12} @rest-kept forall k string :: !seen[k] ==> (has(c, k) == old(has(c, k)) && c[k] == old(c[k]))
+//@   invariant 0 {C12} @seen-in-other forall k string :: seen[k] ==> has(other, k)
+//@   invariant 0 {C12} @other-kept c != other ==> (mapdom(other) == old(mapdom(other)) && mapvals(other) == old(mapvals(other)))
+//@   ensures {C12} @all-copied c != other ==> (forall k string :: has(other, k) ==> (has(c, k) && c[k] == other[k]))
+//@   ensures {C12} @rest-kept c != other ==> (forall k string :: !has(other, k) ==> (has(c, k) == old(has(c, k)) && c[k] == old(c[k])))
+//@   ensures {C12} @other-untouched c != other ==> (mapdom(other) == old(mapdom(other)) && mapvals(other) == old(mapvals(other)))
+//@   ensures r0 == c
+
+// a child context gets a fresh copy of the private bindings and shares the (never written) public ones
+//@ func NewChildExecutionContext
+//@   ensures {C12} @private-copied forall k string :: (has(r0.Private, k) == old(has(parent.Private, k))) && (has(r0.Private, k) ==> r0.Private[k] == old(parent.Private[k]))
+//@   ensures {C12} @parent-untouched parent.Private == old(parent.Private) && mapdom(parent.Private) == old(mapdom(parent.Private)) && mapvals(parent.Private) == old(mapvals(parent.Private))
+//@   ensures {C12} @child-map-is-new r0.Private != parent.Private && fresh(r0.Private)
+
+// constructs bind names only in their own child context and run their body there
+//@ func (*tagForNode).Execute
+//@   at mapupdate requires {C12} @own-scope m == forCtx.Private && m != ctx.Private
+//@ func (*tagForNode).Execute$1
+//@   at mapupdate requires {C12} @own-scope m == forCtx.Private
+//@   at (*NodeWrapper).Execute requires {C12} @body-in-child arg1 == forCtx
+//@ func (*tagForNode).Execute$2
+//@   at (*NodeWrapper).Execute requires {C12} @body-in-child arg1 == forCtx
+//@ func (*tagWithNode).Execute
+//@   at mapupdate requires {C12} @own-scope m == withctx.Private && m != ctx.Private
+//@   at IEvaluator.Evaluate requires {C12} @values-in-outer-scope arg1 == ctx
+//@   at (*NodeWrapper).Execute requires {C12} @body-in-child arg1 == withctx && withctx != ctx
+//@ func (*tagMacroNode).call
+//@   at mapupdate requires {C12,C13} @own-scope (m == argsCtx || m == macroCtx.Private) && m != ctx.Private
+//@   at (*NodeWrapper).Execute requires {C12,C13} @body-in-child arg1 == macroCtx && macroCtx != ctx
+//@ func (tagBlockInformation).Super
+//@   at mapupdate requires {C12} @own-scope m == superCtx.Private && m != t.ctx.Private
+//@   at (*NodeWrapper).Execute requires {C12} @body-in-child arg1 == superCtx
+//@ func (*tagSetNode).Execute
+//@   at mapupdate requires {C12} @sets-its-name m == ctx.Private && k == node.name
+//@ func (*tagIncludeNode).Execute
+//@   at mapupdate requires {C12} @own-context m == includeCtx && m != ctx.Private && m != ctx.Public
